@@ -1,8 +1,8 @@
 package main
 
 import (
-	"go/token"
 	"fmt"
+	"go/token"
 	"strings"
 
 	"golang.org/x/tools/go/ssa"
@@ -435,7 +435,6 @@ func isFreshSlice0(v ssa.Value, seen map[ssa.Value]bool) bool {
 	}
 	return false
 }
-
 
 // ruleC05Gauge: the sessions gauge takes its unit back when a session ends. SaveSessions decides
 // "new" vs "ended" by Duration == 0, so Delete must record the un-rounded lifetime.
